@@ -632,7 +632,14 @@ class _Frame:
         elif isinstance(t, ast.Attribute):
             obj = self.ev(t.value)
             if isinstance(obj, XObj):
-                obj.attrs[self.mangle(obj, t.attr)] = v
+                name = self.mangle(obj, t.attr)
+                setter = self.I.repo.lookup_setter(obj.cls, name) if name not in obj.attrs else None
+                if setter is not None:
+                    # a property with a setter is a data descriptor: the assignment runs the setter
+                    # (an attribute the rule placed on the object itself stands in for the property and is simply replaced)
+                    self.I.call_function(setter, [v], self_obj=obj)
+                else:
+                    obj.attrs[name] = v
             elif isinstance(obj, Closure):
                 pass  # f.__name__ = ..., f.__doc__ = ...: metadata of a generated function
             elif getattr(type(obj), "_xeval_open", False):
